@@ -525,12 +525,6 @@ def classify(ctx, spec, tags, obs):
     corr = sorted(t for t in tags if t in CORR)
     oracle = sorted(t for t in tags if t in ORACLE)
     status = 'ok'
-    if 201 in tags and not oracle:
-        # guard-false input on which the implementation meets the specification: accepted even if the faithful
-        # model (which contains the defect) behaves differently -- repairing a known defect is not an alarm
-        if corr:
-            ctx.coverage['guard_false_spec_ok_model_differs'] = ctx.coverage.get('guard_false_spec_ok_model_differs', 0) + 1
-        return 'ok'
     for t in oracle:
         fid = EXCUSED.get(t)
         if fid and not corr and 201 in tags and ctx.open_finding(fid):
@@ -779,7 +773,10 @@ WRITE_ATTRS = {'write', 'writelines', 'unlink', 'touch', 'mkdir', 'rename', 'rmd
                'write_bytes', 'to_csv', 'to_json', 'dump', 'copy2', 'copy', 'copyfile', 'move', 'rmtree', 'remove', 'truncate'}
 READ_ATTRS = {'readlines', 'read', 'readline', 'read_csv', 'exists', 'is_file', 'is_dir', 'read_text', 'load', 'iterdir',
               'glob', 'resolve', 'read_json'}
-PURE_ATTRS = {'split', 'append', 'count', 'startswith', 'endswith', 'strip', 'join', 'format'}
+PURE_ATTRS = {'split', 'append', 'count', 'startswith', 'endswith', 'strip', 'join', 'format', 'with_suffix', 'with_name',
+              'joinpath', 'get', 'group', 'sub', 'lower', 'upper'}
+OS_WRITE = {'replace', 'rename', 'renames', 'remove', 'unlink', 'mkdir', 'makedirs', 'rmdir', 'removedirs', 'symlink', 'link',
+            'truncate', 'chmod', 'utime'}      # os.<name>(..): the module-qualified file-system mutators
 WRITE_NAMES = {'write_csv', 'write_model', 'create_directory_symlink'}
 PURE_NAMES = {'len', 'str', 'int', 'next', 'sorted', 'list', 'read_results'}
 
@@ -806,41 +803,52 @@ def lock_sites(repo=REPO):
                             continue
                         nsites += 1
                         helper = ce.func.attr
-                        ops, local_defs = [], {d.name for st in w.body for d in ast.walk(st) if isinstance(d, ast.FunctionDef)}
-                        for st in w.body:
-                            for c in [n for n in ast.walk(st) if isinstance(n, ast.Call)]:
-                                f = c.func
-                                if isinstance(f, ast.Name) and f.id == 'open':
-                                    mode = c.args[1] if len(c.args) > 1 else next((k.value for k in c.keywords if k.arg == 'mode'), None)
-                                    if mode is None:
-                                        ops.append(('read', "open 'r'"))
-                                    elif isinstance(mode, ast.Constant) and isinstance(mode.value, str):
-                                        ops.append(('write' if set(mode.value) & set('wax+') else 'read', f"open '{mode.value}'"))
+                        local_defs = {d.name for st in w.body for d in ast.walk(st) if isinstance(d, ast.FunctionDef)}
+                        module_funcs = {d.name: d for d in tree.body if isinstance(d, ast.FunctionDef)}
+                        ops = []
+
+                        def classify(stmts, depth):
+                            for st in stmts:
+                                for c in [n for n in ast.walk(st) if isinstance(n, ast.Call)]:
+                                    f = c.func
+                                    if isinstance(f, ast.Name) and f.id == 'open':
+                                        mode = c.args[1] if len(c.args) > 1 else next((k.value for k in c.keywords if k.arg == 'mode'), None)
+                                        if mode is None:
+                                            ops.append(('read', "open 'r'"))
+                                        elif isinstance(mode, ast.Constant) and isinstance(mode.value, str):
+                                            ops.append(('write' if set(mode.value) & set('wax+') else 'read', f"open '{mode.value}'"))
+                                        else:
+                                            refused.append(f'{rel}:{c.lineno}: open with a non-literal mode')
+                                    elif isinstance(f, ast.Attribute):
+                                        a = f.attr
+                                        recv = f.value.id if isinstance(f.value, ast.Name) else None
+                                        if recv in ('os', 'shutil') and (a in OS_WRITE or a in WRITE_ATTRS):
+                                            ops.append(('write', f'{recv}.{a}'))
+                                        elif a == 'replace':
+                                            ops.append(('write', 'replace (rename)') if len(c.args) == 1 else ('pure', 'str.replace'))
+                                        elif a in WRITE_ATTRS:
+                                            ops.append(('write', a))
+                                        elif a in READ_ATTRS:
+                                            ops.append(('read', a))
+                                        elif a in PURE_ATTRS:
+                                            ops.append(('pure', a))
+                                        else:
+                                            refused.append(f'{rel}:{c.lineno}: unknown operation .{a}() inside a lock body')
+                                    elif isinstance(f, ast.Name):
+                                        if f.id.endswith('Transaction') or f.id in WRITE_NAMES:
+                                            ops.append(('write', f.id))
+                                        elif f.id.endswith('Snapshot'):
+                                            ops.append(('read', f.id))
+                                        elif f.id.endswith('Error') or f.id in PURE_NAMES or f.id in local_defs:
+                                            ops.append(('pure', f.id))
+                                        elif f.id in module_funcs and depth < 3:
+                                            classify(module_funcs[f.id].body, depth + 1)     # a helper of the same file: read it too
+                                        else:
+                                            refused.append(f'{rel}:{c.lineno}: unknown call {f.id}() inside a lock body')
                                     else:
-                                        refused.append(f'{rel}:{c.lineno}: open with a non-literal mode')
-                                elif isinstance(f, ast.Attribute):
-                                    a = f.attr
-                                    if a == 'replace':
-                                        ops.append(('write', 'replace (rename)') if len(c.args) == 1 else ('pure', 'str.replace'))
-                                    elif a in WRITE_ATTRS:
-                                        ops.append(('write', a))
-                                    elif a in READ_ATTRS:
-                                        ops.append(('read', a))
-                                    elif a in PURE_ATTRS:
-                                        ops.append(('pure', a))
-                                    else:
-                                        refused.append(f'{rel}:{c.lineno}: unknown operation .{a}() inside a lock body')
-                                elif isinstance(f, ast.Name):
-                                    if f.id.endswith('Transaction') or f.id in WRITE_NAMES:
-                                        ops.append(('write', f.id))
-                                    elif f.id.endswith('Snapshot'):
-                                        ops.append(('read', f.id))
-                                    elif f.id.endswith('Error') or f.id in PURE_NAMES or f.id in local_defs:
-                                        ops.append(('pure', f.id))
-                                    else:
-                                        refused.append(f'{rel}:{c.lineno}: unknown call {f.id}() inside a lock body')
-                                else:
-                                    refused.append(f'{rel}:{c.lineno}: unknown call shape inside a lock body')
+                                        refused.append(f'{rel}:{c.lineno}: unknown call shape inside a lock body')
+
+                        classify(w.body, 0)
                         mode = table.get(f'{rel}:{helper}')
                         if mode is None:
                             refused.append(f'{rel}: mode of {helper} unknown')
@@ -856,9 +864,11 @@ def lock_sites(repo=REPO):
     return sites, refused
 
 
-SPECIFIED = [('LocalDirectoryContext.store_annotation', False), ('LocalDirectoryContext.retrieve_annotation', True),
-             ('LocalDirectoryContext.store_message', False), ('LocalDirectoryContext.retrieve_log', True),
-             ('LocalModelDirectoryDatabase.snapshot', True), ('LocalModelDirectoryDatabase.transaction', False)]
+# (site, shared, writes) -- mirrors C15/Users.v specified_sites
+SPECIFIED3 = [('LocalDirectoryContext.store_annotation', False, True), ('LocalDirectoryContext.retrieve_annotation', True, False),
+              ('LocalDirectoryContext.store_message', False, True), ('LocalDirectoryContext.retrieve_log', True, False),
+              ('LocalModelDirectoryDatabase.snapshot', True, False), ('LocalModelDirectoryDatabase.transaction', False, True)]
+SPECIFIED = [(n, sh) for n, sh, _ in SPECIFIED3]
 
 
 def check_users(ctx):
@@ -901,14 +911,14 @@ def check_users(ctx):
     for s in bad:
         ctx.violation(f"writers_take_exclusive fails: {s['name']} ({s['file']}:{s['line']}) performs {', '.join(s['ops'])} under "
                       f"the SHARED lock ({s['helper']})", {'static': True, 'site': s})
-    got = [(s['name'], s['shared']) for s in sites]
-    if got != SPECIFIED:
-        missing = [n for n, _ in SPECIFIED if n not in [g for g, _ in got]]
-        changed = [(n, m) for n, m in got if (n, m) not in SPECIFIED]
+    got = [(s['name'], s['shared'], s['writes']) for s in sites]
+    if got != SPECIFIED3:
+        missing = [n for n, _, _ in SPECIFIED3 if n not in [g[0] for g in got]]
+        changed = [g for g in got if g not in SPECIFIED3]
         if not bad:
             ctx.violation(f"lock_sites_as_specified fails: missing lock sites {missing}, unexpected or changed {changed}",
-                          {'static': True, 'got': got, 'specified': SPECIFIED})
-    if not bad and got == SPECIFIED:
+                          {'static': True, 'got': got, 'specified': SPECIFIED3})
+    if not bad and got == SPECIFIED3:
         ctx.broken.append('regenerated obligations did not compile: ' + out[-400:])
     return sites
 
@@ -1147,6 +1157,4 @@ def replay(ctx, rep):
     print('tags', tags, [TAGS.get(t, t) for t in tags])
     excused = [t for t in tags if t in EXCUSED and 201 in tags and not (set(tags) & set(CORR))]
     bad = [t for t in tags if (t in CORR or t in ORACLE) and t not in excused]
-    if 201 in tags and not [t for t in tags if t in ORACLE]:
-        bad = []
     return 1 if bad else 0
